@@ -109,6 +109,25 @@ def call_spatial(T, P, ds2):
     return e
 
 
+def call_sync(T1, P1, T2, P2):
+    """growth: synchronize(track1, track2) (also behind compare(.., SYNC))"""
+    from tracklib.algo.interpolation import synchronize
+    e = {"ev": "sync", "api": "synchronize", "T": list(T1), "P": [list(p) for p in P1], "T2": list(T2), "P2": [list(p) for p in P2],
+         "kind": "list", "d": 0, "ref": [], "raised": False, "lat": True, "out": [], "out2": []}
+    md = max([T1[i + 1] - T1[i] for i in range(len(T1) - 1)] + [T2[i + 1] - T2[i] for i in range(len(T2) - 1)])
+    try:
+        with core.quiet():
+            a, b = mk(T1, P1), mk(T2, P2)
+            synchronize(a, b)
+        e["out"], l1 = rows(a, md)
+        e["out2"], l2 = rows(b, md)
+        e["lat"] = l1 and l2
+    except (Exception, SystemExit) as ex:
+        e["raised"] = True
+        e["exc"] = repr(ex)[:80]
+    return e
+
+
 def cum(t0_, gaps):
     out = [t0_]
     for g_ in gaps:
@@ -155,6 +174,13 @@ def job_random(args):
         m = rnd.randrange(1, 8)
         lst = sorted(rnd.choice([T[0] - 2, T[0], T[-1], T[-1] + 1, rnd.choice(T), rnd.randrange(T[0], T[-1] + 1)]) for _ in range(m))
         out.append(call_temporal(T, P, "list", lst, rnd.choice(["list", "track", "floordiv"])))
+        # synchronisation of two tracks with overlapping time ranges
+        if n >= 3:
+            n2 = rnd.randrange(3, 9)
+            T2 = cum(T[0] + rnd.randrange(-3, 4), [rnd.choice([1, 2, 3, 4, 7]) for _ in range(n2 - 1)])
+            if T2[0] >= 0 and min(T[-1], T2[-1]) - max(T[0], T2[0]) >= 2:
+                P2 = [(rnd.randrange(-5, 6), rnd.randrange(-5, 6), rnd.randrange(0, 4)) for _ in range(n2)]
+                out.append(call_sync(T, P, T2, P2))
         # spatial: walks with integer-length legs
         pts = [(0, 0)]
         for _k in range(n - 1):
